@@ -277,12 +277,20 @@ def run_case(ctx, case):
     try:
         named = {'add': UTPM.add, 'sub': UTPM.sub, 'mul': [UTPM.mul, UTPM.multiply][D % 2], 'div': UTPM.div}
         use_named = (case_seed('C02', op, form, kind, rel, D, P, xs) % 4 == 0)       # the classmethod spelling of the operator
+        # the classmethods accept out=: whatever they do with it, the value handed back is x op y, also when out is one of the operands
+        okw = {}
+        if use_named and other_is_utpm and D % 3 == 0:
+            okw = {'out': [other, x, UTPM(np.zeros((D, P) + tuple(out_shape), dtype=np.result_type(x.data.dtype, other.data.dtype)))][P % 3]}
+            if okw['out'].data.shape != (D, P) + tuple(out_shape):
+                okw = {}
+            xkeep, okeep = x.data.copy(), other.data.copy()
         if form == 'binary':
-            r = named[op](x, other) if use_named else OPS[op](x, other)
+            r = named[op](x, other, **okw) if use_named else OPS[op](x, other)
         elif form == 'reflected':
-            r = named[op](other, x) if use_named else OPS[op](other, x)
+            r = named[op](other, x, **okw) if use_named else OPS[op](other, x)
         else:
             r = IOPS[op](x, other)
+        out_is_operand = bool(okw) and form != 'inplace' and (okw['out'] is x or okw['out'] is other)
     except Exception as e:
         ctx.violation(mech + ':raises:' + type(e).__name__, {'op': op, 'form': form, 'other': kind, 'rel': rel, 'D': D, 'P': P,
                                                              'xshape': xs, 'oshape': os_, 'error': repr(e)[:200]})
@@ -294,7 +302,7 @@ def run_case(ctx, case):
     if r.data.shape != (D, P) + tuple(out_shape):
         ctx.violation(mech + ':shape', {'got': r.data.shape, 'want': (D, P) + tuple(out_shape), 'xshape': xs, 'oshape': os_, 'D': D, 'P': P}); return
     # operands must be untouched (non in-place) -- C14 owns this, here only so a wrong reference is not blamed
-    if form != 'inplace' and not np.array_equal(x.data, xd):
+    if form != 'inplace' and not out_is_operand and not np.array_equal(x.data, xd):
         ctx.violation(mech + ':left-operand-modified', {}); return
     # expected element mapping from numpy broadcasting of index arrays
     nx = int(np.prod(xs, dtype=int)); no = int(np.prod(os_, dtype=int))
